@@ -399,6 +399,56 @@ class Taint:
                 return True
         return False
 
+    def nan_excluded(self, b, bb, operand_locals):
+        """Every path from the entry to bb takes an edge that cannot be taken by NaN: the TRUE outcome of a
+        comparison of (an ancestor of) the value, the true outcome of is_finite/is_normal, or the false
+        outcome of is_nan/is_infinite-or-nan tests."""
+        vals = set()
+        for l in operand_locals:
+            for a in self.ancestors(b, l):
+                vals |= self.copies_of(b, a)
+        # bool locals and what outcome excludes NaN: True -> the true outcome does
+        excl = {}
+        for blk in b.bbs:
+            for s in blk["st"]:
+                if s.get("k") == "A" and s["r"]["k"] == "Bin" and s["r"]["op"] in ("Lt", "Le", "Gt", "Ge", "Eq"):
+                    if op_local(s["r"]["a"]) in vals or op_local(s["r"]["b"]) in vals:
+                        excl[s["p"]["l"]] = True
+            t = blk["t"]
+            if t["k"] == "Call" and any(op_local(a) in vals for a in t["args"]):
+                c = (Body.callee(t) or "").split("::")[-1]
+                if c in ("is_finite", "is_normal", "lt", "le", "gt", "ge", "eq", "contains"):
+                    excl[t["d"]["l"]] = True
+                elif c in ("is_nan",):
+                    excl[t["d"]["l"]] = False
+        # propagate through copies and negation
+        changed = True
+        while changed:
+            changed = False
+            for blk in b.bbs:
+                for s in blk["st"]:
+                    if s.get("k") != "A" or s["p"].get("pr") or s["p"]["l"] in excl:
+                        continue
+                    r = s["r"]
+                    if r["k"] == "Use" and op_local(r["o"]) in excl:
+                        excl[s["p"]["l"]] = excl[op_local(r["o"])]
+                        changed = True
+                    elif r["k"] == "Un" and r["op"] == "Not" and op_local(r["a"]) in excl:
+                        excl[s["p"]["l"]] = not excl[op_local(r["a"])]
+                        changed = True
+        safe_edges = set()
+        for i, blk in enumerate(b.bbs):
+            t = blk["t"]
+            if t["k"] == "Switch" and op_local(t["o"]) in excl:
+                zero = [x for v, x in t["ts"] if v == 0]
+                if not zero:
+                    continue
+                false_t, true_t = zero[0], t["else"]
+                safe_edges.add((i, true_t) if excl[op_local(t["o"])] else (i, false_t))
+        if not safe_edges:
+            return False
+        return bb not in b.reachable(0, removed_edges=safe_edges)
+
     def collect_sinks(self):
         for d, b in self.bodies.items():
             T = self.tainted[d]
@@ -460,7 +510,13 @@ class Taint:
                             self.sinks.append(self._sink(b, "S1", name, self_ty or "int", i, t["sp"], ls, next(x for x in srcs if x)))
         for s in self.sinks:
             b = self.bodies[s.fn]
-            s.sanitised = self.guarded(b, s.bb, [l for l in s.operands if l is not None])
+            ops = [l for l in s.operands if l is not None]
+            s.sanitised = self.guarded(b, s.bb, ops)
+            if s.sanitised and s.kind == "S2":
+                # a float-to-integer cast must in addition be unreachable for NaN
+                s.sanitised = self.nan_excluded(b, s.bb, ops)
+                if not s.sanitised:
+                    s.detail = "guarded by comparisons only on their false outcome: NaN compares false with everything and reaches the cast"
         return self.sinks
 
     def _sink(self, b, kind, op, ty, bb, sp, operands, src):
